@@ -68,6 +68,9 @@ def v1(rep, F):
             if n.get("k") in ("call", "mcall"):
                 c = callee(n)
                 calls[c] = calls.get(c, 0) + 1
+            if n.get("k") == "def" and n.get("dk") in ("assoc_fn", "fn") and n.get("def"):
+                # a rule function referred to by value (entry of a table of rules that is run in a loop)
+                calls[n["def"]] = calls.get(n["def"], 0) + 1
         wired = 0
         for b in rules:
             r["instances"] += 1
@@ -127,7 +130,28 @@ def v2(rep, F):
                 continue
             r["instances"] += 1
             r["analysed"] += 1
+            # a code handed to a shared helper as an argument (the helper builds the error) counts as used
+            for n in walk(b["body"]):
+                if n.get("k") in ("call", "mcall"):
+                    hb = F.body_by_path.get(callee(n))
+                    if hb is not None and "body" in hb and not hb.get("exp") and \
+                            any(True for _ in error_sites(hb["body"])):
+                        for a_ in n.get("args") or []:
+                            v_ = lit_val(peel(a_))
+                            if isinstance(v_, str) and re.fullmatch(r"[A-Z]\d{2}", v_):
+                                used.add(v_)
+                if n.get("k") == "array" or n.get("k") == "tup":
+                    for x in walk(n):
+                        v_ = lit_val(x) if x.get("k") == "lit" else None
+                        if isinstance(v_, str) and re.fullmatch(r"[A-Z]\d{2}", v_):
+                            used.add(v_)
             for c in sorted(stated - used):
+                from . import decide
+                rw, who = decide.rewritten(F, b["path"])
+                if rw:
+                    rep.notes.append("V2: %s was restructured (%d statements / conditions changed): whether it "
+                                     "still emits %s is undecided" % (b["path"], rw, c))
+                    continue
                 rep.add(Finding("V2", b["path"], "stated-not-emitted:%s" % c,
                                 "%s::%s documents error code %s but no path emits it: the rule is not "
                                 "implemented" % (name, b["name"], c), b["file"], b["line"]))
@@ -215,6 +239,7 @@ def s1_fn(rep, F, b, r, depth=0, seen=None):
         if isinstance(t, dict) and t.get("k") == "local":
             acc = t["id"]
     uses = 0
+    derived = set()
 
     def visit(n, parents):
         nonlocal uses
@@ -248,6 +273,14 @@ def s1_fn(rep, F, b, r, depth=0, seen=None):
                 return check_passed(node, parents[:i])
             if node.get("k") == "if" and key == "cond":
                 return check_if(node, parents[:i])
+            if node.get("k") == "assign" and key == "r" and isinstance(peel(node.get("l")), dict) \
+                    and peel(node["l"]).get("k") == "local":
+                # stopped = flag [&& !acc.is_empty()]: the same two idioms, kept in a variable
+                fake = {"k": "if", "ln": node.get("ln"), "cond": node["r"],
+                        "then": {"k": "block", "stmts": [{"k": "assign", "l": node["l"],
+                                                          "r": {"k": "lit", "t": "bool", "v": True}}], "expr": None},
+                        "else": None}
+                return check_if(fake, parents[:i])
             if node.get("k") in ("bin", "un", "ref", "block") or key in ("l", "r", "e"):
                 i -= 1
                 continue
@@ -261,6 +294,23 @@ def s1_fn(rep, F, b, r, depth=0, seen=None):
         cond = ifn["cond"]
         ln = ifn.get("ln")
         ok_ret = acc is not None and _is_ret_of(ifn["then"], acc) and ifn.get("else") is None
+        # single-exit style: the branch only raises a local "stopped" flag; everything after it must be skipped
+        # under that flag (checked below: the flag is used in conditions only)
+        if not ok_ret and ifn.get("else") is None and isinstance(ifn.get("then"), dict) and ifn["then"].get("k") == "block":
+            st_ = list(ifn["then"].get("stmts") or [])
+            if ifn["then"].get("expr") is not None:
+                st_.append(ifn["then"]["expr"])
+            raised = []
+            for x in st_:
+                if x.get("k") == "assign" and lit_val(peel(x.get("r"))) is True and \
+                        isinstance(peel(x.get("l")), dict) and peel(x["l"]).get("k") == "local":
+                    raised.append(peel(x["l"])["id"])
+                else:
+                    raised = None
+                    break
+            if raised:
+                derived.update(raised)
+                ok_ret = True
         if not ok_ret:
             rep.add(Finding("S1", b["path"], "stop-branch",
                             "the stop_on_first_error branch in %s does not simply `return` the accumulated "
@@ -336,6 +386,39 @@ def s1_fn(rep, F, b, r, depth=0, seen=None):
                 break
 
     visit(body, [])
+    # a derived "stopped" flag may only steer control: conditions of if / while, nothing else
+    if derived:
+        def dvisit(n, parents):
+            if isinstance(n, list):
+                for i_, x in enumerate(n):
+                    if isinstance(x, (dict, list)):
+                        dvisit(x, parents + [("list", n, i_)])
+                return
+            if not isinstance(n, dict):
+                return
+            if n.get("k") == "local" and n.get("id") in derived:
+                ok_ = False
+                for key, node, idx in reversed(parents):
+                    if key == "list":
+                        continue
+                    if node.get("k") in ("if", "while") and key == "cond":
+                        ok_ = True
+                        break
+                    if node.get("k") == "assign" and key == "l":
+                        ok_ = True
+                        break
+                    if node.get("k") in ("bin", "un", "ref", "block", "paren") or key in ("l", "r", "e"):
+                        continue
+                    break
+                if not ok_:
+                    rep.add(Finding("S1", b["path"], "derived-flag-use",
+                                    "a flag raised in stop mode is used outside a condition in %s" % b["name"],
+                                    b["file"], b["line"]))
+                return
+            for k_, v in n.items():
+                if isinstance(v, (dict, list)) and k_ not in ("pat", "pats"):
+                    dvisit(v, parents + [(k_, n, None)])
+        dvisit(body, [])
     # all returns give the accumulator
     if uses == 0:
         r["instances"] += 1     # flag unused: both modes are the same computation
